@@ -205,10 +205,10 @@ var propSpecs = []propSpec{
 		id: "C18",
 		runs: []runSpec{
 			{dir: "mux", entry: "ZZC18", quick: append(seq(50, []int{0, 1, 2, 3, 4, 5, 6, 7}, 6), seq(0, []int{0, 1, 2, 3, 4, 5, 6, 7}, 6)...), thorough: append(seq(50, []int{0, 1, 2, 3, 4, 5, 6, 7}, 9), seq(0, []int{0, 1, 2, 3, 4, 5, 6, 7}, 9)...)},
-			{dir: "trace", entry: "ZZC18Helper", quick: []int{0, 1}, thorough: []int{0, 1}},
+			{dir: "trace", entry: "ZZC18Helper", quick: []int{0, 1, 2}, thorough: []int{0, 1, 2}},
 		},
 		covers:  []string{"trace-configured", "trace-not-configured", "dump-ok", "dump-error"},
-		bounds:  "TRACE request with every path of <= 6 bytes on the 8 table histories of C01 between two Use calls, with WithTrace (configured handler, exactly the Use middlewares with arguments TRACE/\"\"/router, no parameters, manual registration refused, TRACE in every Allow set incl. OPTIONS *) and without (404/405 per the documented resolution, TRACE registrable and then served); helper: httputil.DumpRequest nondeterministic (arbitrary error, or arbitrary dump of <= 3 bytes incl. HTML metacharacters), status 200, Content-Type read from the header snapshot taken at WriteHeader, body = html.EscapeString(dump), error passthrough, with and without body",
+		bounds:  "TRACE request with every path of <= 6 bytes on the 8 table histories of C01 between two Use calls, with WithTrace (configured handler, exactly the Use middlewares with arguments TRACE/\"\"/router, no parameters, manual registration refused, TRACE in every Allow set incl. OPTIONS *) and without (404/405 per the documented resolution, TRACE registrable and then served); helper: httputil.DumpRequest nondeterministic (arbitrary error, or arbitrary dump of <= 3 bytes incl. HTML metacharacters), status 200, Content-Type read from the header snapshot taken at WriteHeader, body = html.EscapeString(dump), error passthrough, without body and with a body of undeclared and of declared length",
 		boundsT: "paths <= 9 bytes",
 		outside: "the content of real request dumps (httputil.DumpRequest is stubbed; natively it is the real function)",
 		stubs:   append(append([]string{}, stdStubs...), "net/http/httputil.DumpRequest: arbitrary error or arbitrary <= 3 bytes, deterministic per request; html.EscapeString: byte-wise model of the five replacements"),
@@ -216,11 +216,11 @@ var propSpecs = []propSpec{
 	{
 		id: "C19",
 		runs: []runSpec{
-			{dir: "mux", entry: "ZZC19", quick: []int{13, 23}, thorough: []int{13, 24, 34}},
+			{dir: "mux", entry: "ZZC19", quick: []int{13, 23, 112, 122}, thorough: []int{13, 24, 34, 113, 124}},
 			{dir: "mux", entry: "ZZC19Verbs", quick: []int{2}, thorough: []int{3}},
 		},
 		covers:  []string{"program", "facade-route-reached", "verbs"},
-		bounds:  "every program of <= 2 facade calls from 10 (Prefix with middlewares, empty Prefix, a Prefix ending inside a {..} token, nested Prefix.Prefix + Any, Resource Get/Delete, Prefix.Resource Put, Prefix.Resource.Remove, Prefix.Clean, Resource.Clean, nested Prefix.Remove with a method list) run through the facades on one router and desugared into plain Router calls on a second one; compared: Routes(), the table model, the same symbolic request (path <= 3 bytes x 6 methods: handler, pattern, parameters, middleware chain, status, Allow), Prefix.URL / Resource.URL / nested Prefix.URL vs Router.URL in both modes with a symbolic value; every verb shorthand (Get/Post/Delete/Put/Patch/Any/Handle) of Router, Prefix and Resource against the explicit Handle call on 7 patterns x 8 methods with a symbolic parameter value",
+		bounds:  "every program of <= 2 facade calls from 11, on an empty table and on one with five literal siblings next to a parameter route (Prefix with middlewares, empty Prefix, a Prefix ending inside a {..} token, nested Prefix.Prefix + Any, Resource Get/Delete, Prefix.Resource Put, Prefix.Resource.Remove, Prefix.Clean, a nested Prefix.Clean whose prefix reaches into a parameter segment, Resource.Clean, nested Prefix.Remove with a method list) run through the facades on one router and desugared into plain Router calls on a second one; compared: Routes(), the table model, the same symbolic request (path <= 3 bytes x 6 methods: handler, pattern, parameters, middleware chain, status, Allow), Prefix.URL / Resource.URL / nested Prefix.URL vs Router.URL in both modes with a symbolic value; every verb shorthand (Get/Post/Delete/Put/Patch/Any/Handle) of Router, Prefix and Resource against the explicit Handle call on 7 patterns x 8 methods with a symbolic parameter value",
 		boundsT: "programs of <= 3 calls, probe paths <= 4 bytes",
 		outside: "longer programs; other prefixes",
 		stubs:   stdStubs,
@@ -256,12 +256,13 @@ var propSpecs = []propSpec{
 		id: "C07",
 		runs: []runSpec{
 			{dir: "mux", entry: "ZZC07Seq", quick: []int{1, 2}, thorough: []int{1, 2, 3}},
-			{dir: "mux", entry: "ZZC07Pool", quick: []int{6}, thorough: []int{8}},
+			{dir: "mux", entry: "ZZC07Pool", quick: []int{5}, thorough: []int{7}},
+			{dir: "mux", entry: "ZZC07Nested", quick: []int{2}, thorough: []int{3}},
 			{dir: "mux", entry: "ZZC07Par", quick: []int{0, 1, 2, 10, 12}, thorough: []int{0, 1, 2, 10, 12}},
 		},
-		covers:  []string{"foreign-activity", "pooled-request-served", "par-two-routers", "par-router-and-hosts", "par-build-and-serve", "par-requests"},
+		covers:  []string{"foreign-activity", "pooled-request-served", "nested-request", "par-two-routers", "par-router-and-hosts", "par-build-and-serve", "par-requests"},
 		race:    true,
-		bounds:  "sequential: a brand-new router (with/without WithTrace) is observed (OPTIONS * Allow, a 404, Routes(), Allow after one registration) before and after every sequence of <= 2 operations from 8 on other routers, a Hosts matcher and a Group; pooled contexts: two consecutive requests with symbolic paths <= 6 bytes on the backtracking table; concurrent (logical threads + happens-before monitor over every heap access): two routers registering/removing in parallel, a router and a Hosts matcher, one router being built and cleaned while another serves, two parallel requests with symbolic parameter values on one quiescent router with and without WithLock",
+		bounds:  "sequential: a brand-new router (with/without WithTrace) is observed (OPTIONS * Allow, a 404, Routes(), Allow after one registration) before and after (and against the documented answers after) every sequence of <= 2 operations from 10 on other routers, a Hosts matcher and a Group; pooled contexts: two consecutive requests with symbolic paths <= 5 bytes on the backtracking table, optionally after a Group served (its own release path), and a handler that serves a nested request while its own is in flight; the engine also reports a pooled object that is released twice; concurrent (logical threads + happens-before monitor over every heap access): two routers registering/removing in parallel, a router and a Hosts matcher, one router being built and cleaned while another serves, two parallel requests with symbolic parameter values on one quiescent router with and without WithLock",
 		boundsT: "foreign sequences of <= 3 operations, pooled paths <= 8 bytes",
 		outside: "more than two concurrent requests; Groups used concurrently; weak-memory effects beyond the Go memory model's race definition",
 		assume:  []string{"sync.Pool hands a released context to the next request (single-goroutine runtime behaviour between GCs)"},
